@@ -940,6 +940,9 @@ func newInterpreter(ld *Loaded, w *Worker) *interpreter {
 // resetRepoGlobals zeroes the globals of the code under test (including the
 // init guards) so that its package initialisers run again for the next path.
 func (i *interpreter) resetRepoGlobals() {
+	// sync.Once values of the code under test start afresh as well (those
+	// of the standard library merely rebuild their tables)
+	i.onceDone = map[*value]bool{}
 	for _, pkg := range i.prog.AllPackages() {
 		if !i.ld.isRepo(pkg.Pkg.Path()) {
 			continue
